@@ -6,5 +6,5 @@ Definition all_types : nat * N * Z := (0%nat, 0%N, 0%Z).
 Extraction "term_model.ml" all_types term_new feed run interp cp_wid wfix fix_left term_col drawupdate drawfix win
   vi_linecount count_nl text_lines vc_put_chars vc_put_lines put_screen
   term_window_out term_done term_init term_init_cached reinit_out region_agrees nextline_bottom_out
-  dir_context led_pos vi_pos line_dir render_row led_prompt led_prompt_early prompts geom colon_repaints write_to_command tail_after_wait
+  dir_context led_pos vi_pos line_dir render_row led_prompt led_prompt_early prompts geom colon_repaints write_to_command tail_after_wait wswap_tail
   pos_prev pos_next ren_off ren_noeol col2off ren_cursor cursor_pos cursor_pos_xcol init_left.
